@@ -49,6 +49,10 @@ type opSpec struct {
 	Aux string
 }
 
+// pairVariant varies request details that do not change which backend method
+// a request reaches (the Tsetattr mask); set per run by runPair.
+var pairVariant int
+
 const (
 	anyKind     = -1
 	anyNonRoot  = -2
@@ -86,6 +90,17 @@ var opTable = []*opSpec{
 		return &rc.Treadlink{Fid: fid}
 	}},
 	{Name: "setattr", Need: anyKind, Method: "SetAttr", Build: func(fid, aux uint32, role, base string) rc.Message {
+		// every mask is a SetAttr: mode, times only, nothing at all, size, owner
+		switch pairVariant % 5 {
+		case 1:
+			return &rc.Tsetattr{Fid: fid, Valid: rc.SetattrAtime | rc.SetattrMtime}
+		case 2:
+			return &rc.Tsetattr{Fid: fid, Valid: 0}
+		case 3:
+			return &rc.Tsetattr{Fid: fid, Valid: rc.SetattrSize, Size: 3}
+		case 4:
+			return &rc.Tsetattr{Fid: fid, Valid: rc.SetattrUID | rc.SetattrGID | rc.SetattrAtime | rc.SetattrAtimeSet, UID: 1, GID: 2, ATimeSec: 9}
+		}
 		return &rc.Tsetattr{Fid: fid, Valid: rc.SetattrMode, Mode: 0o600}
 	}},
 	{Name: "create", Need: int(simfs.Dir), Method: "Create", Build: func(fid, aux uint32, role, base string) rc.Message {
